@@ -894,6 +894,11 @@ func (fc *funcContext) delegatedCall(expr *ast.CallExpr) (callable *expression, 
 	case *ast.SelectorExpr:
 		isJs = typesutil.IsJsPackage(fc.pkgCtx.Uses[fun.Sel].Pkg())
 	}
+	if fun, ok := expr.Fun.(*ast.Ident); ok && isBuiltin && fun.Name == "recover" {
+		// `defer recover()`: the built-in is not called by a deferred function, so
+		// it returns nil and does not stop a panic.
+		return fc.formatExpr("function() { }"), fc.formatExpr("[]")
+	}
 	sig := typesutil.Signature{Sig: fc.typeOf(expr.Fun).Underlying().(*types.Signature)}
 	args := fc.translateArgs(sig.Sig, expr.Args, expr.Ellipsis.IsValid())
 
